@@ -31,6 +31,45 @@ func sccJustify(c *an.Ctx, scc *an.SCC, detector []*an.Guard, allFuncs []*ssa.Fu
 				break
 			}
 		}
+		if cutBy[i] == "" {
+			// input-consuming: a checked read on a source that is handed to the callee
+			g := &an.Guard{Name: "checked read", MatchCall: func(k ssa.CallInstruction) bool {
+				f := k.Common().StaticCallee()
+				if f == nil || f.Signature.Recv() == nil || !strings.HasSuffix(f.Signature.Recv().Type().String(), "common.ZeroCopySource") || !strings.HasPrefix(f.Name(), "Next") {
+					return false
+				}
+				passed := false
+				for _, a := range e.Site.Common().Args {
+					if a == k.Common().Args[0] {
+						passed = true
+					}
+				}
+				return passed
+			}}
+			// fail mode: eof (last bool result) true
+			g.FailModes = nil
+			for _, k := range an.Calls(e.Caller) {
+				if g.MatchCall(k) {
+					n := k.Common().StaticCallee().Signature.Results().Len()
+					m := make([]an.Abs, n)
+					m[n-1] = an.ATrue
+					g.FailModes = [][]an.Abs{m}
+					break
+				}
+			}
+			if g.FailModes != nil {
+				// only reads with identical result arity share the mode; restrict the match to that arity
+				arity := len(g.FailModes[0])
+				inner := g.MatchCall
+				g.MatchCall = func(k ssa.CallInstruction) bool {
+					return inner(k) && k.Common().StaticCallee().Signature.Results().Len() == arity
+				}
+				v := an.Guarded(c.P, e.Caller, []*an.Guard{g}, func(in ssa.Instruction) bool { return in == ssa.Instruction(e.Site) }, false)
+				if v.Holds && v.GuardSites > 0 {
+					cutBy[i] = "bound"
+				}
+			}
+		}
 		if cutBy[i] == "" && len(detector) > 0 {
 			v := an.Guarded(c.P, e.Caller, detector, func(in ssa.Instruction) bool { return in == ssa.Instruction(e.Site) }, false)
 			if v.Holds && v.GuardSites > 0 {
